@@ -10,7 +10,7 @@ def run(ctx):
     facts = gen(ctx)
     ctx.cov["gen_facts"] = facts
     if facts is not None:
-        ctx.prove()
+        ctx.prove(families=("vaa",))
     vaacommon.run_vaa(ctx, "c04", ("body", "eq", "ne"))
     ctx.cov["rule"] = ("body: SerializeBody/SigningMsg of random VAAs vs the model's bytes and Keccak(Keccak(.)) recomputed by the harness; "
                        "eq: digest unchanged under version / set index / signatures / nanosecond changes; ne: each single body-field change "
